@@ -43,6 +43,34 @@ pub fn run(c: &Case, rep: &mut Report, prop: &str, seed: u64) {
         rep.inconclusive(c, "input-rejected-by-reference-validator");
         return;
     }
+    // roots added through the API before the pass: the reference is the module as emitted after that edit
+    let edited = end.str("addroots").is_some() || end.has("panic.addroots");
+    if let Some(p) = end.str("panic.addroots") {
+        rep.violation(c, &format!("{}/panic/{}", prop, crate::basic::panic_signature(p)), &format!("adding roots through the API: {}", p), &[]);
+        return;
+    }
+    let input = if edited {
+        match end.get("out.pre") {
+            Some(p) => {
+                if let Err(e) = feat::validate(p, false) {
+                    // an invalid output after a well-formed edit is C02's subject
+                    rep.inconclusive(c, &format!("edited-module-invalid(reported by C02): {}", e.chars().take(60).collect::<String>()));
+                    return;
+                }
+                rep.count("cases-with-roots-added-through-the-api", 1);
+                for w in end.str("addroots").unwrap_or("").split(',').filter(|w| !w.is_empty()) {
+                    rep.observe("roots-added-through-the-api", w);
+                }
+                p
+            }
+            None => {
+                rep.inconclusive(c, "no-output-after-edit(reported by C02)");
+                return;
+            }
+        }
+    } else {
+        input
+    };
     for (k, v) in &end.fields {
         if k.starts_with("panic.gc") {
             let p = std::str::from_utf8(v).unwrap_or("?");
